@@ -5,9 +5,11 @@ CONSTANTS
   HasTimeout = {j1, j2, j3}
   IgnoresTerm = {}
   PopenMayFail = {}
+  PreFix = FALSE
   CoarseCancel = TRUE
   Modes = {"nowait", "wait"}
 VIEW View
 SYMMETRY JobSymmetry
 INVARIANTS TypeOK ResultAtMostOnce ResultConsistent TimeoutIsUnknown CancelCoversRegistered ClosedMeansDead
-  QuiescentUnlessRace AcceptOnlyByToctou JoinCoversSnapshot
+  QuiescentUnlessCbp CbpOnlyRegistered NoAcceptAfterShutdown QuiescentAfterReturnedWait
+  SnapshotCoversRegistered JoinCoversSnapshot
